@@ -1073,6 +1073,11 @@ class Driver:
             return [(s, Opq("void"))]
         if n in ("builtin:any", "builtin:all"):
             return [(s, CBool("%s()" % n[8:]))]
+        if n.endswith(".get") and args and isinstance(args[0], str) and (len(args) == 1 or args[1] in (None, False) or (isinstance(args[1], Lin) and args[1].is_const() and args[1].k == 0)):
+            # D.get('k'[, falsy default]) used as a switch: on when the key is PRESENT and its value is truthy -- two
+            # independent facts about the caller's dictionary (presence is what `'k' in D` tests)
+            cont = n[:-4]
+            return [(s, CAnd(CBool("%s in %s.keys()" % (args[0], cont)), CBool("the value stored under the key %s is truthy" % "-".join(args[0]))))]
         if n.startswith("modeldisc.") or n.startswith("mod:") or n.startswith("global:") or n.endswith(".keys") or n.endswith(".items") or n.endswith(".values") or n.endswith(".get") or n.endswith(".pop") or n.startswith("expr") or n.startswith("item"):
             if n == "modeldisc.calc_timestep":
                 fo = args[0] if args else None
